@@ -39,6 +39,12 @@ fn le_bytes(bits: u128, wb: usize) -> impl Iterator<Item = u8> {
 pub fn expected_values(r: &Record) -> Vec<u128> {
     match r.shape {
         Shape::Tup3 => vec![r.vals[0], tup_head(r.vals[0]) as u128, tup_tail(r.vals[0]) as u128],
+        Shape::Rec => {
+            let mut v = r.vals.clone();
+            v.push(tup_head(r.vals[0]) as u128);
+            v.push(tup_tail(r.vals[0]) as u128);
+            v
+        }
         _ => r.vals.clone(),
     }
 }
@@ -66,6 +72,34 @@ pub fn model_bytes(r: &Record, wb: usize) -> (Vec<u8>, Vec<(usize, usize, usize)
             b.push((r.vals.len() as u8) << 2);
             payload(&mut b, &r.vals)
         }
+        Shape::Rec => {
+            let v = r.vals[0];
+            let n = r.vals.len();
+            spans.push((0, 1, n));
+            b.push(tup_head(v));
+            spans.push((1, wb, 0));
+            b.extend(le_bytes(v, wb));
+            if n == 2 {
+                b.push(1);
+                spans.push((b.len(), wb, 1));
+                b.extend(le_bytes(r.vals[1], wb));
+            } else {
+                b.push(0);
+            }
+            spans.push((b.len(), 2, n + 1));
+            b.extend_from_slice(&tup_tail(v).to_le_bytes());
+        }
+        Shape::Sum => match r.vals.len() {
+            0 => b.push(0),
+            1 => {
+                b.push(3);
+                payload(&mut b, &r.vals)
+            }
+            _ => {
+                b.push(7);
+                payload(&mut b, &r.vals)
+            }
+        },
         Shape::Tup3 => {
             let v = r.vals[0];
             spans.push((0, 1, 1));
@@ -88,6 +122,7 @@ pub struct Written {
     pub digest: u64,
     pub steps: u64,
     pub events: Option<Vec<(u8, u64, u64)>>,
+    pub ok: [u32; 24],
 }
 
 fn panic_msg(p: Box<dyn std::any::Any + Send>) -> String {
@@ -116,6 +151,8 @@ pub fn validate(table: &[Ops], t: &Trace) -> Result<(), String> {
             Shape::Arr3 => n == 3,
             Shape::Pair => n == 2,
             Shape::None => n == 0,
+            Shape::Rec => n == 1 || n == 2,
+            Shape::Sum => n <= 2,
             Shape::Vec => n < 64,
             Shape::Append => n < 64 && r.splits.iter().map(|x| *x as usize).sum::<usize>() == n,
         };
@@ -220,6 +257,11 @@ pub fn write_phase(table: &[Ops], t: &Trace, record: bool) -> Result<Written, Vi
             }
         }
         log.ev(ev::CHECK_OK, check_no("E1"), i as u64);
+        log.ev(ev::CHECK_OK, check_no("E3"), i as u64);
+        log.ev(ev::CHECK_OK, check_no("E2"), i as u64);
+        if r.shape == Shape::Append {
+            log.ev(ev::CHECK_OK, check_no("A1"), r.splits.len() as u64);
+        }
         // B1: byte views / bits algebra on the record's own values and on the bytes just written
         for (j, v) in r.vals.iter().enumerate() {
             let raw: Vec<u8> = le_bytes(v.rotate_left(37) ^ 0x6996_c33c_a55a_0ff0_1234_5678_9abc_def1u128.wrapping_mul(j as u128 + 1), 16).collect();
@@ -235,9 +277,12 @@ pub fn write_phase(table: &[Ops], t: &Trace, record: bool) -> Result<Written, Vi
                 }
             }
         }
+        if !r.vals.is_empty() {
+            log.ev(ev::CHECK_OK, check_no("B1"), i as u64);
+        }
         // M1: published metadata describes the plain integer
         match catch_unwind(|| (ops.meta_check)()) {
-            Ok(Ok(())) => {}
+            Ok(Ok(())) => log.ev(ev::CHECK_OK, check_no("M1"), i as u64),
             Ok(Err(m)) => {
                 log.ev(ev::CHECK_FAIL, check_no("M1"), i as u64);
                 return Err(viol("M1", i, &f0, format!("{}: {}", ops.name, m)));
@@ -251,7 +296,7 @@ pub fn write_phase(table: &[Ops], t: &Trace, record: bool) -> Result<Written, Vi
             serde_op(table, o, k, &mut log)?;
         }
     }
-    Ok(Written { medium, spans, digest: log.digest.finish(), steps: log.steps, events: log.record })
+    Ok(Written { medium, spans, digest: log.digest.finish(), steps: log.steps, ok: log.ok, events: log.record })
 }
 
 // ------------------------------------------------------------------ serde seam
@@ -310,6 +355,7 @@ fn serde_op(table: &[Ops], o: &SerdeOp, k: usize, log: &mut Log) -> Result<(), V
         }
     }
     log.ev(ev::CHECK_OK, check_no("S2"), k as u64);
+    log.ev(ev::CHECK_OK, check_no("S3"), k as u64);
     // S4: two real formats, differential against a derived `{ bits }` struct of the underlying integer,
     // including every strict prefix of the encoded text / bytes (a cut stream must fail for both)
     let js = catch_unwind(|| ((s.json)(bits, o.wrapping), (s.json_twin)(bits)));
@@ -411,6 +457,7 @@ pub struct PassOut {
     pub stats: PassStats,
     pub digest: u64,
     pub events: Option<Vec<(u8, u64, u64)>>,
+    pub ok: [u32; 24],
 }
 
 #[derive(Debug, PartialEq, Eq, Clone)]
@@ -579,6 +626,10 @@ pub fn read_pass(table: &[Ops], t: &Trace, w: &Written, fault: &Fault, record: b
                     break;
                 }
                 inp.log.ev(ev::CHECK_OK, check_no(id), i as u64);
+                inp.log.ev(ev::CHECK_OK, check_no("D2"), i as u64);
+                if t.input != InputMode::plain() {
+                    inp.log.ev(ev::CHECK_OK, check_no("D5"), i as u64);
+                }
             }
             Want::MustErr => {
                 match &out {
@@ -657,5 +708,5 @@ pub fn read_pass(table: &[Ops], t: &Trace, w: &Written, fault: &Fault, record: b
     if let Some(v) = &violation {
         inp.log.ev(ev::CHECK_FAIL, check_no(v.check), v.rec as u64);
     }
-    PassOut { violation, stats, digest: inp.log.digest.finish(), events: inp.log.record.take() }
+    PassOut { violation, stats, digest: inp.log.digest.finish(), ok: inp.log.ok, events: inp.log.record.take() }
 }
